@@ -668,8 +668,9 @@ def c03(tier):
         c.add_harness(rt, cfg + " (implementation's trees judged by SplCheck)")
         os.remove(res["out"])
     procs, num = (8, 40) if tier == "quick" else (16, 400)
-    for cfg in ("Sim_SplStatic_semfaults.cfg", "Sim_SplStatic_faults.cfg", "Sim_SplStatic_valid.cfg"):
-        res = vlib.tlc_sim_multi("MC_SplStatic", cfg, "c03_" + cfg.replace(".cfg", ""), procs, num, 3000, timeout=3000)
+    for cfg in ("Sim_SplStatic_semfaults.cfg", "Sim_SplStatic_argfaults.cfg", "Sim_SplStatic_faults.cfg", "Sim_SplStatic_valid.cfg"):
+        # (the focused configuration for argument / parameter type mismatches is small and cheap: four times as many runs)
+        res = vlib.tlc_sim_multi("MC_SplStatic", cfg, "c03_" + cfg.replace(".cfg", ""), procs, num * (4 if "argfaults" in cfg else 1), 3000, timeout=3000)
         c.add_tlc(res, cfg)
         r = _tag_mode(_fe("static", res["out"], "c03_" + cfg.replace(".cfg", ""), ["missing=1"]), "static")
         c.add_harness(r, cfg)
